@@ -54,7 +54,7 @@ class EnvironmentDataDescription(ComplexDop):
         # done within the encode and decode methods.
         odxraise("The parameter of ENV-DATA-DESC objects cannot be resolved "
                  "because it depends on the context")
-        return cast(None, Parameter)
+        return cast(Parameter, None)
 
     @staticmethod
     def from_et(et_element: ElementTree.Element,
